@@ -122,7 +122,11 @@ def parse_region_rules(ctx):
             if conj == cond or any((c == cond and p) for c, p in e.guards):
                 return e
             # the raise may sit under nested ifs whose conjunction is the condition
-            gs = [c if p else T.not_(c) for c, p in e.guards if e.gkinds[e.guards.index((c, p))] == 'if' and c[0] != 'unk']
+            gs = []
+            for c, p in e.cguards:
+                if c[0] != 'unk':
+                    t = c if p else T.not_(c)
+                    gs.extend(t[1] if t[0] == 'and' else [t])
             if gs and T.nary('and', tuple(gs)) == cond:
                 return e
         return None
@@ -141,7 +145,7 @@ def parse_region_rules(ctx):
     ctx.check(all(exc_name(e) == 'ValueError' for e in rs), R, 'error-type', ctx.where(fa),
               found=sorted({exc_name(e) for e in rs}), expected=['ValueError'])
     # no early return that bypasses the checks
-    ctx.check(len(rets) == 1 and not [g for g, k in zip(rets[0].guards, rets[0].gkinds) if k != 'raise'], R, 'single-exit',
+    ctx.check(len(rets) == 1 and not rets[0].cguards, R, 'single-exit',
               ctx.where(fa), found=len(rets), expected='one return, reached only past all refusals')
 
 
